@@ -4,6 +4,7 @@ import (
 	"fmt"
 	"os"
 	"sort"
+	"strings"
 	"sync"
 	"time"
 
@@ -128,7 +129,7 @@ func Explore(l *Loaded, c *Check, o Options) (*HarnessResult, error) {
 					s = s2
 				}
 			}
-			res := l.Prog.RunPath(c.Fn, prefix, ctx, s, interp.RunOpts{Redirect: redir, MaxDecisions: c.MaxDec, MaxConcretize: c.MaxConc, BlockIsViolation: c.OnBlock == "violation", Coop: c.Sched == "coop", MaxSteps: c.MaxSteps, UnwindIsViolation: c.OnUnwind == "violation"})
+			res := l.Prog.RunPath(c.Fn, prefix, ctx, s, interp.RunOpts{Redirect: redir, MaxDecisions: c.MaxDec, MaxConcretize: c.MaxConc, BlockIsViolation: c.OnBlock == "violation", Coop: strings.HasPrefix(c.Sched, "coop"), Deviate: coopDeviate(c.Sched), MaxSteps: c.MaxSteps, UnwindIsViolation: c.OnUnwind == "violation"})
 
 			mu.Lock()
 			active--
@@ -255,6 +256,15 @@ func Replay(l *Loaded, c *Check, model map[string]uint64, trail []interp.Decisio
 	if model == nil {
 		model = map[string]uint64{}
 	}
-	res := l.Prog.RunPath(c.Fn, trail, ctx, nil, interp.RunOpts{Redirect: redir, Concrete: model, MaxDecisions: c.MaxDec, MaxConcretize: c.MaxConc, BlockIsViolation: c.OnBlock == "violation", Coop: c.Sched == "coop", MaxSteps: c.MaxSteps, UnwindIsViolation: c.OnUnwind == "violation"})
+	res := l.Prog.RunPath(c.Fn, trail, ctx, nil, interp.RunOpts{Redirect: redir, Concrete: model, MaxDecisions: c.MaxDec, MaxConcretize: c.MaxConc, BlockIsViolation: c.OnBlock == "violation", Coop: strings.HasPrefix(c.Sched, "coop"), Deviate: coopDeviate(c.Sched), MaxSteps: c.MaxSteps, UnwindIsViolation: c.OnUnwind == "violation"})
 	return res, nil
+}
+
+// coopDeviate: "coop" = round robin only; "coop+N" = every schedule within N deviations from round robin.
+func coopDeviate(s string) int {
+	n := 0
+	if i := strings.IndexByte(s, '+'); i >= 0 {
+		fmt.Sscan(s[i+1:], &n)
+	}
+	return n
 }
